@@ -18,6 +18,7 @@ UNITS = {
             "readback_u32": "u32 payload: is/length/try_content/try_content_mut/try_cast return exactly the value put in",
             "readback_u8_u64_unit_array": "u8, u64, (), [u8;4] payloads read back as their own type with the declared length",
             "mismatch_leaves_body_intact": "try_cast/try_content(_mut) with any other type (incl. layout-compatible i32/[u8;4]/newtype) fail and leave the body intact",
+            "same_named_types_are_distinct": "two distinct types with the same printed type name are not confused (identity is the TypeId)",
             "clone_is_equal_and_independent": "clone/try_clone yield an equal, independent value and keep the declared length",
             "non_clonable_yields_none": "new_non_clonable: try_clone is None, the value still casts back",
             "drop_exactly_once_all_scripts": "all 16 paths of clone? try_clone? failed-cast? ok-cast?|drop: every stored value dropped exactly once",
@@ -118,30 +119,29 @@ def run_unit(unit, tier, repo, work):
             r["undecided"].append("LOST-ANCHOR kani unit %s: %s does not exist" % (unit, cfg["file"]))
             return r
         d = prepare(unit, repo)
-        cmd = ["cargo", "kani", "--output-format", "regular"]
-        rc, out, wall = sh(cmd, d, 2400 if tier == "thorough" else 600)
-        if rc == 124:
-            r["undecided"].append("kani unit %s: no verdict within the time limit (%ds)" % (unit, 2400 if tier == "thorough" else 600))
-            return r
-        r["cmds"].append("(cd kani/%s with @REPO@=%s && CARGO_NET_OFFLINE=true %s)" % (unit, repo, " ".join(cmd)))
-        res = parse(out)
-        if not res:
-            errs = [l for l in out.splitlines() if l.startswith("error")]
-            r["undecided"].append("kani unit %s produced no harness result (the included file no longer compiles with the harnesses, or tool failure): %s" % (unit, (errs or [out[-300:]])[0]))
-            return r
+        per_harness = 900 if tier == "thorough" else 150
+        r["cmds"].append("(cd kani/%s with @REPO@=%s && CARGO_NET_OFFLINE=true cargo kani --output-format regular --harness <each harness>, time limit %ds each)" % (unit, repo, per_harness))
         for h, desc in cfg["harnesses"].items():
+            # one harness at a time: a harness that becomes expensive on an edited tree must not hide a quick refutation by another
+            rc, out, wall = sh(["cargo", "kani", "--output-format", "regular", "--harness", h], d, per_harness)
+            if rc == 124:
+                r["undecided"].append("kani unit %s: harness %s gave no verdict within %ds" % (unit, h, per_harness))
+                continue
+            res = parse(out)
             hr = res.get(h)
             if hr is None:
-                r["undecided"].append("kani unit %s: harness %s did not run" % (unit, h))
+                errs = [l for l in out.splitlines() if l.startswith("error")]
+                r["undecided"].append("kani unit %s: harness %s did not run (the included file no longer compiles with the harnesses, or tool failure): %s" % (unit, h, (errs or [out[-200:]])[0]))
+                if errs:
+                    break
                 continue
             r["obligations"] += 1
             ok = hr["status"] == "SUCCESSFUL"
-            r["harnesses"].append({"harness": h, "what": desc, "status": hr["status"], "cbmc_checks": hr["checks"], "verification_s": hr["time"]})
+            r["harnesses"].append({"harness": h, "what": desc, "status": hr["status"], "cbmc_checks": hr["checks"], "verification_s": hr["time"], "wall_s": round(wall, 1)})
             if ok:
                 r["discharged"] += 1
                 r["samples"].append({"unit": unit, "obligation": h, "clause": desc})
             else:
-                # counterexample: concrete playback, executed against the real (included) code
                 rep = counterexample(unit, d, h, hr, cfg, repo)
                 r["violations"].append(rep)
         for fn in cfg["functions"]:
